@@ -52,10 +52,9 @@ Fixpoint m_supply (f src : str) (m : list (str * str)) : list (str * str) :=
 
 Definition m_has (f : str) (m : list (str * str)) : bool := existsb (fun kv => path_eqb (fst kv) f) m.
 
-Definition mem_str (x : str) (l : list str) : bool := existsb (str_eqb x) l.
-
-Fixpoint nodup_str (l : list str) : bool :=
-  match l with [] => true | x :: r => negb (mem_str x r) && nodup_str r end.
+(** lists of paths are compared as sets of paths ([PathBuf] equality = equality of components) *)
+Fixpoint nodup_path (l : list str) : bool :=
+  match l with [] => true | x :: r => negb (mem_path x r) && nodup_path r end.
 
 Definition NL : N := 10.
 
@@ -85,7 +84,7 @@ Section Spec.
     filter (fun p => negb (m_has p m)) (targets_of m).
 
   Definition same_set (a b : list str) : bool :=
-    forallb (fun x => mem_str x b) a && forallb (fun x => mem_str x a) b.
+    forallb (fun x => mem_path x b) a && forallb (fun x => mem_path x a) b.
 
   Definition read_ok (e : expect) (x : resp) : bool :=
     match e, x with
@@ -95,9 +94,9 @@ Section Spec.
         let got := split_nl v in
         match l with
         | [] => list_eqb str_eqb got [[]]
-        | _ => nodup_str got && same_set got l
+        | _ => nodup_path got && same_set got l
         end
-    | XFiles l, RFiles got => nodup_str got && same_set got l    (* the model's own form *)
+    | XFiles l, RFiles got => nodup_path got && same_set got l    (* the model's own form *)
     | _, _ => false
     end.
 
